@@ -11,6 +11,7 @@ from pytestarch.eval_structure.evaluable_architecture import (
     ModuleGroup,
     NotExplicitlyRequestedDependenciesByBaseModule,
 )
+from pytestarch.eval_structure.exceptions import ImpossibleMatch
 from pytestarch.eval_structure.module_name_converter import ModuleNameConverter
 from pytestarch.rule_assessment.error_message.message_generator import (
     LayerRuleViolationMessageGenerator,
@@ -201,6 +202,34 @@ class LayerRuleMatcher(RuleMatcher):
     ) -> None:
         super().__init__(module_requirement, behavior_requirement)
         self._layer_mapping = layer_mapping
+
+    def _updated_module_requirements(self, evaluable: EvaluableArchitecture) -> None:
+        super()._updated_module_requirements(evaluable)
+
+        # layers that are not mentioned in the rule can be defined via regexes as well. Their modules are needed to
+        # assign modules to layers, so these regexes have to be converted to actual module names, too.
+        self._conversion_mapping_layers_not_in_rule: dict[str, list[Module]] = {}
+        for layer in self._layer_mapping.all_layers:
+            for module_filter in self._layer_mapping.get_module_filters(layer):
+                if (
+                    not module_filter.identifier_is_regex
+                    or module_filter.identifier in self._conversion_mapping_importers
+                    or module_filter.identifier in self._conversion_mapping_importees
+                ):
+                    continue
+                try:
+                    _, mapping = ModuleNameConverter.convert([module_filter], evaluable)
+                except ImpossibleMatch:
+                    mapping = {}
+                self._conversion_mapping_layers_not_in_rule[
+                    module_filter.identifier
+                ] = mapping.get(module_filter.identifier, [])
+
+    def _create_module_name_regex_conversion_mapping(self) -> dict[str, list[Module]]:
+        result = super()._create_module_name_regex_conversion_mapping()
+        for key, values in self._conversion_mapping_layers_not_in_rule.items():
+            result.setdefault(key, values)
+        return result
 
     def _get_rule_violation_detector(
         self, module_name_conversion_mapping: dict[str, list[Module]]
